@@ -563,6 +563,7 @@ def cases(ctx):
                         for vn in ([], ["--varnames"]):
                             p = os.path.join(tmp, "m.out")
                             argv = ["cnfgen", "-o", p] + fopts + q + vn + fam_argv
+                            last_argv[:] = argv
                             quiet(lambda: cli_cnfgen(argv, mode="output"))
                             got = open(p).read()
                             F = lib()
@@ -580,6 +581,7 @@ def cases(ctx):
                                  (".tex.opb", "opb"), (".opb.tex", "latex"), ("/../out", "dimacs"), (".tex.cnf", "dimacs")):
                     # "m/../name": a file called exactly `name` in the scratch directory
                     p = os.path.join(tmp, ext[4:]) if ext.startswith("/../") else os.path.join(tmp, "m" + ext)
+                    last_argv[:] = ["cnfgen", "-o", p, "--varnames"] + fam_argv
                     quiet(lambda: cli_cnfgen(["cnfgen", "-o", p, "--varnames"] + fam_argv, mode="output"))
                     F = lib()
                     buf = io.StringIO()
@@ -587,7 +589,13 @@ def cases(ctx):
                     if nocmd(open(p).read()) != nocmd(buf.getvalue()):
                         return {"what": "format chosen by extension differs from the library's", "ext": ext}
             return None
-        fmt_matrix_res = fmt_matrix()
+        last_argv = []
+        try:
+            fmt_matrix_res = fmt_matrix()
+        except (Exception, SystemExit) as e:  # a well-formed command line that the tool refuses is a failing input
+            fmt_matrix_res = {"what": "the tool fails on a well-formed command line of the format matrix",
+                              "argv": [a for a in last_argv if not a.startswith(tmp)], "exception": type(e).__name__,
+                              "message": str(e)[:200]}
         fullm = ["cnfgen", "--varnames", "-of", "opb", "php", "3", "2"]
         out.append(Case("format_matrix", split_req(fullm), lambda fullm=fullm: split_impl(fullm),
                         lambda r=fmt_matrix_res: r, cls="format", info={"argv": fullm}))
